@@ -853,6 +853,15 @@ func (e *Env) evalCall(n ECall, hint types.Type) TV {
 			t = fmt.Sprintf("(sref %s)", a.term)
 		}
 		return TV{term: fmt.Sprintf("(>= %s %s)", t, e.old.get(vc.nextVar())), typ: bt}
+	case "allocated":
+		// allocated(r): the reference denotes an object that exists in the current state
+		// (needed for references stored in arrays: a later allocation cannot alias them)
+		a := e.eval(n.Args[0], nil)
+		t := a.term
+		if _, ok := a.typ.Underlying().(*types.Slice); ok {
+			t = fmt.Sprintf("(sref %s)", a.term)
+		}
+		return TV{term: fmt.Sprintf("(and (<= 0 %s) (< %s %s))", t, t, e.st.get(vc.nextVar())), typ: bt}
 	case "haskey":
 		m := e.eval(n.Args[0], nil)
 		mt, ok := m.typ.Underlying().(*types.Map)
